@@ -245,6 +245,21 @@ fn grid_job<Q: QueueLike>(n: usize, pat: usize) -> Result<JobOut, String> {
     let mut other = Q::q_from_vec(mk_vec(1_000_000_000));
     let total = q.q_len() + other.q_len();
     bulk!("append", total, q.q_append(&mut other));
+    // append with every size ratio and both directions; the appended priorities lie above
+    // (below) everything in the receiver, the worst case for element-by-element insertion
+    for (label, div, above) in [("append n/2 above", 2usize, true), ("append n/4 above", 4, true), ("append n/2 below", 2, false), ("append n/16 above", 16, true)] {
+        for swap in [false, true] {
+            let mut a: Q = Q::q_from_vec(mk_vec(0));
+            let m = (n / div).max(1);
+            let mut b: Q = Q::q_from_vec((0..m).map(|i| (Item::new(2_000_000_000 + i as u32, 0), Prio::new(if above { gmax + 1 + i as i32 } else { gmin - 1 - i as i32 }))).collect());
+            let total = n + m;
+            if swap {
+                bulk!(format!("{label} (small.append(big))"), total, b.q_append(&mut a));
+            } else {
+                bulk!(format!("{label} (big.append(small))"), total, a.q_append(&mut b));
+            }
+        }
+    }
     let len = q.q_len();
     let o: Q::Other = bulk!("conversion", len, q.q_into_other());
     let len = o.q_len();
